@@ -1,5 +1,5 @@
 use num_bigint::BigInt;
-use std::collections::HashMap;
+use std::collections::{HashMap, HashSet};
 use std::fmt;
 
 use crate::constants::UsefulConstants;
@@ -10,25 +10,37 @@ use super::ir::VariableName;
 pub struct ValueEnvironment {
     constants: UsefulConstants,
     reduces_to: HashMap<VariableName, ValueReduction>,
+    not_constant: HashSet<VariableName>,
 }
 
 impl ValueEnvironment {
     pub fn new(constants: &UsefulConstants) -> ValueEnvironment {
-        ValueEnvironment { constants: constants.clone(), reduces_to: HashMap::new() }
+        ValueEnvironment {
+            constants: constants.clone(),
+            reduces_to: HashMap::new(),
+            not_constant: HashSet::new(),
+        }
     }
 
     /// Set the value of the given variable. Returns `true` on first update.
     ///
-    /// # Panics
-    ///
-    /// This function panics if the caller attempts to set two different values
-    /// for the same variable.
+    /// Variables which are not in SSA form (e.g. signals) may be assigned different
+    /// values on different paths. Such a variable does not reduce to a constant.
     pub fn add_variable(&mut self, name: &VariableName, value: &ValueReduction) -> bool {
-        if let Some(previous) = self.reduces_to.insert(name.clone(), value.clone()) {
-            assert_eq!(previous, *value);
-            false
-        } else {
-            true
+        if self.not_constant.contains(name) {
+            return false;
+        }
+        match self.reduces_to.get(name) {
+            Some(previous) if previous != value => {
+                self.reduces_to.remove(name);
+                self.not_constant.insert(name.clone());
+                false
+            }
+            Some(_) => false,
+            None => {
+                self.reduces_to.insert(name.clone(), value.clone());
+                true
+            }
         }
     }
 
